@@ -25,6 +25,7 @@ fn run_prop(id: &str, tier: Tier) -> Option<Report> {
         "C19" => props::c19::run(tier),
         "C17" => props::c17::run(tier),
         "C16" => props::c16::run(tier),
+        "C14" => props::c14::run(tier),
         _ => return None,
     })
 }
@@ -43,6 +44,7 @@ fn replay_case(case: &Value) -> Option<(bool, String)> {
         "c19" => props::c19::replay(case),
         "c17" | "c17hsl" => props::c17::replay(case),
         "c16yuv" | "c16curve" | "c16prim" | "c16xyb" | "c16hsl" => props::c16::replay(case),
+        "c14" | "c14labels" => props::c14::replay(case),
         _ => return None,
     })
 }
